@@ -44,6 +44,12 @@ def _decode(b):
 
 def scenario(h, which):
     c = pobj.counter_record
+    if which == 'D':
+        # one resolvable object changed four times: pairs of undos in one transaction where the first is a
+        # plain pointer copy and the second needs a merge against the in-transaction state
+        for n_, tag in ((1, 'a'), (2, 'b'), (5, 'c'), (9, 'd')):
+            h.commit([(T.oid(1), c(n_, tag))], desc=b'counter -> %d' % n_)
+        return
     h.commit([(T.oid(1), c(1, 'a')), (T.oid(2), b'b1'), (T.oid(3), b'c1')], b'u1', b't1 creates 1,2,3')
     h.commit([(T.oid(1), c(2, 'b')), (T.oid(2), b'b2')], b'u2', b't2 changes 1,2')
     if which == 'A':
@@ -186,6 +192,14 @@ def h_undo_tid(tid: bytes, which: str, reopen: bool) -> None:
         h = T.Hist(s)
         if which == 'C':
             T.T4(h)
+        elif which == 'P':
+            # scenario A, then a pack that turns the first four transactions into packed ones: their ids
+            # (possibly kept from an undo log fetched before the pack) must be refused
+            scenario(h, 'A')
+            s.pack(env.clock.now - 2.5, lambda p: [], gc=False)
+            from zverif import graph as GR
+            h.m = GR.model_from_storage(s)
+            check([t_.status for t_ in h.m.txns].count('p') >= 2, 'harness: the pack did not mark transactions as packed')
         else:
             scenario(h, which)
         if reopen:
@@ -263,22 +277,98 @@ def h_multi_undo(i: int, j: int, which: str) -> None:
     reached()
 
 
+def h_db_undo(i: int, j: int, two: bool, storage: str) -> None:
+    """DB.undo / DB.undoMultiple as a data manager in the caller's transaction: every connection -
+    the one that issued the undo and others with the objects already cached - sees the undone state at
+    its next boundary; the undo transaction can be undone again."""
+    with untraced():
+        import transaction
+        import ZODB
+        import ZODB.DemoStorage
+        env = T.Env()
+        if storage == 'file':
+            s = env.filestorage()
+        else:
+            s = ZODB.DemoStorage.DemoStorage(base=env.mappingstorage(), changes=env.filestorage())
+        db = ZODB.DB(s)
+        tm = transaction.TransactionManager()
+        c = db.open(tm)
+        r = c.root()
+        names = ['x', 'y', 'z']
+        for nme in names:
+            r[nme] = pobj.PObj(v=1)
+        tm.commit()
+        tids = []
+        for k, nme in enumerate(names):
+            r[nme].v = 10 + k
+            tm.get().note('change ' + nme)
+            tm.commit()
+            tids.append(s.lastTransaction())
+        tm2 = transaction.TransactionManager()
+        c2 = db.open(tm2)
+        r2 = c2.root()
+        cached = dict((nme, r2[nme].v) for nme in names)          # objects loaded (cached) in the other connection
+        check(cached == {'x': 10, 'y': 11, 'z': 12}, 'harness: unexpected start state')
+    a = choose(i, 3)
+    b = choose(j, 3)
+    if two:
+        assume(a != b)
+    else:
+        assume(b == 0)
+    with untraced():
+        import base64
+        ids = [base64.encodebytes(tids[a]).rstrip()] + ([base64.encodebytes(tids[b]).rstrip()] if two else [])
+        if two:
+            db.undoMultiple(ids, tm.get())
+        else:
+            db.undo(ids[0], tm.get())
+        tm.commit()
+        undone = set([names[a]] + ([names[b]] if two else []))
+        want = dict((nme, 1 if nme in undone else 10 + k) for k, nme in enumerate(names))
+        note('undone', ','.join(sorted(undone)))
+        got = dict((nme, r[nme].v) for nme in names)
+        check(got == want, 'the connection that issued the undo does not see the undone state', got, want)
+        tm2.begin()                                          # next boundary of the other connection
+        got2 = dict((nme, r2[nme].v) for nme in names)
+        check(got2 == want, 'another connection does not see the undo at its next boundary', got2, want)
+        tm3 = transaction.TransactionManager()
+        c3 = db.open(tm3)
+        got3 = dict((nme, c3.root()[nme].v) for nme in names)
+        check(got3 == want, 'a fresh connection does not see the undone state', got3, want)
+        # an undo is an ordinary transaction: undo it
+        db.undo(base64.encodebytes(s.lastTransaction()).rstrip(), tm.get())
+        tm.commit()
+        tm2.begin()
+        back = dict((nme, 10 + k) for k, nme in enumerate(names))
+        check(dict((nme, r2[nme].v) for nme in names) == back, 'undo of the undo not seen by the other connection')
+        check(dict((nme, r[nme].v) for nme in names) == back, 'undo of the undo not seen by the issuing connection')
+        db.close()
+    reached()
+
+
 HARNESSES = [
     Harness('undo_tid', h_undo_tid,
             decides='undo(id) for every 8-byte id: succeeds exactly for undoable transactions, writes the pre-transaction '
                     'state (un-creates objects it created, keeps mergeable later changes), else UndoError and no change; '
                     'the undo can itself be undone; all answers survive reopen',
-            symbolic='tid (8 free bytes)', bounds='scenarios A/B/C; before/after reopen', oracle='model_undo (from the property text) + RevStore battery',
+            symbolic='tid (8 free bytes)', bounds='scenarios A/B/C and P (A followed by a pack: packed transactions must be refused); before/after reopen', oracle='model_undo (from the property text) + RevStore battery',
             code=['FileStorage.undo', '_txn_find', '_txn_undo_write', '_transactionalUndoRecord', '_undoDataInfo',
                   'tryToResolveConflict (undo path)'],
-            quick=dict(timeout=150, shards=shards(which=['A', 'B', 'C'], reopen=[False]) + shards(which=['A'], reopen=[True])),
-            thorough=dict(timeout=600, shards=shards(which=['A', 'B', 'C'], reopen=[False, True]))),
+            quick=dict(timeout=150, shards=shards(which=['A', 'B', 'C', 'P'], reopen=[False]) + shards(which=['A'], reopen=[True])),
+            thorough=dict(timeout=600, shards=shards(which=['A', 'B', 'C', 'P'], reopen=[False, True]))),
+    Harness('db_undo', h_db_undo,
+            decides='DB.undo / undoMultiple: the issuing connection, a connection with the objects cached, and a fresh one all see the '
+                    'undone state at their next boundary; the undo can be undone',
+            symbolic='selectors of the transaction(s) to undo (single, or an ordered pair in one call)', bounds='3 objects, 3 undoable transactions',
+            oracle='value model', code=['DB.undo/undoMultiple', 'TransactionalUndo', 'UndoAdapterInstance.undo/tpc_finish', 'MVCCAdapter._invalidate_finish'],
+            quick=dict(timeout=100, shards=shards(two=[False, True], storage=['file', 'demo'])),
+            thorough=dict(timeout=300, shards=shards(two=[False, True], storage=['file', 'demo']))),
     Harness('multi_undo', h_multi_undo,
             decides='two transactions undone in one transaction, in any order: result = sequential application, or UndoError and no change',
-            symbolic='two selectors over the transactions of the history', bounds='scenarios A, B (6 transactions): all 30 ordered pairs',
+            symbolic='two selectors over the transactions of the history', bounds='scenarios A, B (6 transactions: all 30 ordered pairs) and D (one resolvable object changed 4 times: 12 ordered pairs)',
             oracle='model_undo applied sequentially', code=['FileStorage.undo (tindex path)', '_transactionalUndoRecord'],
-            quick=dict(timeout=120, shards=shards(which=['A', 'B'])),
-            thorough=dict(timeout=300, shards=shards(which=['A', 'B']))),
+            quick=dict(timeout=120, shards=shards(which=['A', 'B', 'D'])),
+            thorough=dict(timeout=300, shards=shards(which=['A', 'B', 'D']))),
 ]
 
 MANIFEST = dict(
@@ -287,7 +377,6 @@ MANIFEST = dict(
          'merged states, UndoError with nothing changed, undo of the undo, reopen - is compared with a model of undo written '
          'from the property text through every revision query; pairs of undos in one transaction are explored by selector.',
     note='scenario histories (<= 8 transactions; equal / mergeable / conflicting later changes; prior undo records); object '
-         'states concrete; base64 decoding of the id bypassed for symbolic ids; DB.undo / visibility to other connections is '
-         'exercised in C02/C11 machinery only as far as built (see DESIGN.md).',
+         'states concrete; base64 decoding of the id bypassed for symbolic ids; DB.undo with visibility to other connections by selector (db_undo).',
     design_ref='DESIGN.md section 4, C06',
 )
